@@ -781,11 +781,22 @@ pub struct RSched {
     pub per_thread: usize,
     pub size: usize,
     pub chunks: usize,
+    /// thread 0 drops the appender after this many of its appends and goes on with a fresh one built on
+    /// the same path (an in-process restart, e.g. a configuration reload); single-writer harnesses only
+    pub restart_after: Option<usize>,
 }
 
 impl RSched {
     pub fn describe(&self) -> String {
-        format!("{} | {} threads x {} appends of {} bytes in {} chunks", self.world.describe(), self.threads, self.per_thread, self.size, self.chunks)
+        format!(
+            "{} | {} threads x {} appends of {} bytes in {} chunks{}",
+            self.world.describe(),
+            self.threads,
+            self.per_thread,
+            self.size,
+            self.chunks,
+            self.restart_after.map_or(String::new(), |k| format!(", appender dropped and rebuilt after {} appends", k))
+        )
     }
 }
 
@@ -804,18 +815,45 @@ pub fn rsched_exec(h: &RSched, prefix: &[usize]) -> (sched::Execution, Result<St
     };
     let notes: Arc<Mutex<Vec<String>>> = Arc::new(Mutex::new(vec![]));
     let mut bodies: Vec<Box<dyn FnOnce() + Send>> = vec![];
-    for t in 0..h.threads {
-        let app = app.clone();
+    if let (Some(k), 1) = (h.restart_after, h.threads) {
+        // single writer with an in-process restart: the only reference to the appender moves into the body
         let notes = notes.clone();
-        let (per, size) = (h.per_thread, h.size);
+        let (per, size, chunks) = (h.per_thread, h.size, h.chunks);
+        let (w2, sb2, consults2, armed2) = (w.clone(), sb.clone(), consults.clone(), armed.clone());
+        let mut app = Some(app);
         bodies.push(Box::new(move || {
             for r in 0..per {
-                let text = tpayload(&format!("t{}r{}", t, r), size);
-                if let Err(e) = app.append(&Record::builder().level(Level::Info).args(format_args!("{}", text)).build()) {
-                    notes.lock().unwrap().push(format!("append-error:t{}r{}:{}", t, r, e));
+                if r == k {
+                    drop(app.take());
+                    match w2.build_appender_with(&sb2, &consults2, &armed2, Box::new(ChunkEncoder { chunks })) {
+                        Ok(a) => app = Some(Arc::new(a)),
+                        Err(e) => {
+                            notes.lock().unwrap().push(format!("rebuild-failed:{}", e));
+                            return;
+                        }
+                    }
+                }
+                let text = tpayload(&format!("t0r{}", r), size);
+                if let Err(e) = app.as_ref().unwrap().append(&Record::builder().level(Level::Info).args(format_args!("{}", text)).build()) {
+                    notes.lock().unwrap().push(format!("append-error:t0r{}:{}", r, e));
                 }
             }
         }));
+    } else {
+        for t in 0..h.threads {
+            let app = app.clone();
+            let notes = notes.clone();
+            let (per, size) = (h.per_thread, h.size);
+            bodies.push(Box::new(move || {
+                for r in 0..per {
+                    let text = tpayload(&format!("t{}r{}", t, r), size);
+                    if let Err(e) = app.append(&Record::builder().level(Level::Info).args(format_args!("{}", text)).build()) {
+                        notes.lock().unwrap().push(format!("append-error:t{}r{}:{}", t, r, e));
+                    }
+                }
+            }));
+        }
+        drop(app);
     }
     let ex = sched::run_schedule(bodies, prefix, std::time::Duration::from_secs(20));
     if let Some(p) = ex.panics.first() {
@@ -941,7 +979,7 @@ pub fn run_scheds(ctx: &Ctx, rep: &mut Report, hs: &[(RSched, usize)]) {
             rep.violation(
                 sig,
                 format!("[{}] schedule {:?}: {}", h.describe(), choices, detail),
-                serde_json::json!({"kind": "schedule", "world": world_json(&h.world), "threads": h.threads, "per_thread": h.per_thread, "size": h.size, "chunks": h.chunks, "schedule": choices}),
+                serde_json::json!({"kind": "schedule", "world": world_json(&h.world), "threads": h.threads, "per_thread": h.per_thread, "size": h.size, "chunks": h.chunks, "restart_after": h.restart_after, "schedule": choices}),
             );
         }
     }
@@ -950,7 +988,7 @@ pub fn run_scheds(ctx: &Ctx, rep: &mut Report, hs: &[(RSched, usize)]) {
 
 pub fn replay_sched_case(case: &serde_json::Value) -> Result<(), String> {
     let w = world_from_json(&case["world"]).ok_or("bad world")?;
-    let h = RSched { world: w, threads: case["threads"].as_u64().unwrap_or(2) as usize, per_thread: case["per_thread"].as_u64().unwrap_or(1) as usize, size: case["size"].as_u64().unwrap_or(24) as usize, chunks: case["chunks"].as_u64().unwrap_or(2) as usize };
+    let h = RSched { world: w, threads: case["threads"].as_u64().unwrap_or(2) as usize, per_thread: case["per_thread"].as_u64().unwrap_or(1) as usize, size: case["size"].as_u64().unwrap_or(24) as usize, chunks: case["chunks"].as_u64().unwrap_or(2) as usize, restart_after: case["restart_after"].as_u64().map(|k| k as usize) };
     let sch: Vec<usize> = case["schedule"].as_array().ok_or("bad schedule")?.iter().filter_map(|x| x.as_u64().map(|n| n as usize)).collect();
     let (_, verdict) = rsched_exec(&h, &sch);
     verdict.map(|_| ()).map_err(|(s, d)| format!("{}: {}", s, d))
